@@ -33,3 +33,33 @@ def stripPrefix? (s pre : String) : Option String :=
   if s.startsWith pre then some (s.drop pre.length).toString else none
 
 end Drv
+
+namespace Drv
+/-- what the driver is asked for: the model's answer, the observable the specification demands
+(`n/a` when the family has none), the verdict of the property predicate on the implementation's
+answer (`ok` / `fail:<why>` / `n/a`), or the known-finding classes the operation belongs to (`-` if none) -/
+inductive Mode | model | spec | prop | kf
+  deriving BEq, Repr
+
+structure Req where
+  mode : Mode
+  args : List String
+  impl : String := ""
+
+abbrev Handler := Req → String
+
+/-- lift a model-only executor -/
+def modelOnly (f : List String → String) : Handler := fun r =>
+  match r.mode with
+  | .model => f r.args
+  | .kf => "-"
+  | _ => "n/a"
+
+/-- lift an executor with a model and a spec variant (`true` = spec) -/
+def modelSpec (f : Bool → List String → String) : Handler := fun r =>
+  match r.mode with
+  | .model => f false r.args
+  | .spec => f true r.args
+  | .kf => "-"
+  | .prop => "n/a"
+end Drv
